@@ -263,7 +263,8 @@ class Interp:
         if "staticmethod" in decos:
             pass
         elif "classmethod" in decos:
-            env2[params[0]] = ClassRef(me.__dict__["_ci"])
+            # a witness that stands for the class itself (a generated class with witness attributes) stays the receiver
+            env2[params[0]] = me if me.__dict__.get("_is_class") else ClassRef(me.__dict__["_ci"])
             params = params[1:]
         elif decos - {"property"}:
             raise _Unknown(f"decorated method {m.name}")
